@@ -161,18 +161,19 @@ func VerifC10_DecodeLengths9() {
 	sym.Reach("decoded")
 }
 
-// VerifC10_DecodeLengths17: schema of 17 fields (map16 branch of the reserved header).
-//
-//verif:reach decoded
-func VerifC10_DecodeLengths17() {
-	names := []string{"a0", "a1", "a2", "a3", "a4", "a5", "a6", "a7", "a8", "a9", "b0", "b1", "b2", "b3", "b4", "b5", "env"}
+// verifDecodeWide: schema of n fields (n-1 plain + one environment field), the
+// plain ones present by pattern, one of symbolic length.
+func verifDecodeWide(n int) {
+	all := []string{"a0", "a1", "a2", "a3", "a4", "a5", "a6", "a7", "a8", "a9", "b0", "b1", "b2", "b3", "b4", "b5"}
+	plain := n - 1
+	names := append(append([]string{}, all[:plain]...), "env")
 	schema := base.MustNewLogSchema(names)
 	s, err := NewEventSerializer(logger.Root(), schema, SerializationConfig{EnvironmentFields: []string{"env"}})
 	sym.Assume(err == nil)
-	fields := make(base.LogFields, 17)
+	fields := make(base.LogFields, n)
 	present := 0
 	pattern := sym.Choice("presentPattern", 4) // none / all / even / first half
-	for i := 0; i < 16; i++ {
+	for i := 0; i < plain; i++ {
 		if pattern == 1 || (pattern == 2 && i%2 == 0) || (pattern == 3 && i < 8) {
 			fields[i] = "v"
 			present++
@@ -189,8 +190,8 @@ func VerifC10_DecodeLengths17() {
 	out := s.SerializeRecord(rec)
 	r := &verifReader{b: out}
 	r.header(1_600_000_000, 123)
-	sym.Assert(r.mapLen() == present+1, "map16 count = non-empty fields + environment")
-	for i := 0; i < 16; i++ {
+	sym.Assert(r.mapLen() == present+1, "root map count = non-empty fields + environment")
+	for i := 0; i < plain; i++ {
 		if fields[i] != "" {
 			r.str(names[i], "key")
 			r.str(fields[i], "value")
@@ -203,6 +204,17 @@ func VerifC10_DecodeLengths17() {
 	sym.Assert(r.p == len(out), "nothing follows the event")
 	sym.Reach("decoded")
 }
+
+// VerifC10_DecodeLengths17: schema of 17 fields (map16 branch of the reserved header).
+//
+//verif:reach decoded
+func VerifC10_DecodeLengths17() { verifDecodeWide(17) }
+
+// VerifC10_DecodeLengthsAroundFixmap: schemas of 14, 15 and 16 fields: the
+// boundary where the reserved root-map header switches from fixmap to map16.
+//
+//verif:reach decoded
+func VerifC10_DecodeLengthsAroundFixmap() { verifDecodeWide(14 + sym.Choice("schemaFields", 3)) }
 
 // verifUnescape is the reference for the syslog unescaper: \n \t \\ and friends.
 func verifUnescape(s string) string {
